@@ -294,7 +294,7 @@ fn judge(c: &C18Case, g: &Grouped, target: &PathBuf) -> Verdict {
 pub fn check(tier: Tier) -> i32 {
     let ctx = Ctx::new("C18", tier);
     replay_corpus::<C18Case, _>(&ctx, run_case);
-    drive(&ctx, "main", tier.pick(4000, 40000), case_strategy, run_case);
+    drive(&ctx, "main", tier.pick(6000, 40000), case_strategy, run_case);
     cleanup_process_scratch();
     ctx.finish(
         "exploration",
